@@ -132,7 +132,13 @@ pub fn app(mut ctx: RequestContext, res: &mut ResponseHandle) -> io::Result<()> 
 
 pub fn build_server(max_head: usize) -> Server {
     let mut b = Server::builder("127.0.0.1:0").unwrap();
+    // the other numeric settings are given values different from the head limit, before and after it:
+    // the limit in force must be the one passed to max_request_head_size, whatever else is configured
+    b.thread_count(max_head % 5 + 2);
+    b.epoll_queue_max_events(max_head + 1000);
     b.max_request_head_size(max_head);
+    b.epoll_queue_max_events(if max_head > 100 { max_head / 2 } else { max_head + 333 });
+    b.thread_count(max_head % 3 + 1);
     b.fallback_route(app);
     b.pre_routing_hook(|req, res| {
         match req.headers.get("x-hook") {
